@@ -104,3 +104,28 @@ pub fn fnv(data: &[u8]) -> u64 {
 pub fn join<T: std::fmt::Display>(xs: &[T]) -> String {
     xs.iter().map(|x| x.to_string()).collect::<Vec<_>>().join(",")
 }
+
+/// Re-run this binary as child processes, one per configuration (the xet-core limits are `lazy_static`s read
+/// from `HF_XET_*` environment variables once per process).  Each child writes its own part directory.
+pub fn run_children(ctx: &Ctx, child_suite: &str, configs: &[Vec<(String, String)>]) {
+    let exe = std::env::current_exe().unwrap();
+    let mut handles = Vec::new();
+    for (i, env) in configs.iter().enumerate() {
+        let out = ctx.out.join(format!("part-{i:03}"));
+        std::fs::create_dir_all(&out).unwrap();
+        let mut cmd = std::process::Command::new(&exe);
+        cmd.arg(child_suite).arg("--seed").arg((ctx.seed.wrapping_mul(1000) + i as u64).to_string())
+            .arg("--tier").arg(if ctx.quick() { "quick" } else { "thorough" }).arg("--out").arg(&out);
+        for (k, v) in env { cmd.env(k, v); }
+        handles.push((i, cmd.spawn().expect("spawn child")));
+        if handles.len() >= 8 {
+            let (j, mut h) = handles.remove(0);
+            let st = h.wait().unwrap();
+            if !st.success() { eprintln!("child part {j} of {child_suite} failed: {st}"); std::process::exit(3); }
+        }
+    }
+    for (j, mut h) in handles {
+        let st = h.wait().unwrap();
+        if !st.success() { eprintln!("child part {j} of {child_suite} failed: {st}"); std::process::exit(3); }
+    }
+}
